@@ -283,7 +283,15 @@ def make_history(rng, pool, target, tree):
 
 
 def verdict_class(v):
-    return v  # 'accepted' or 'rejected:<ErrorClass>' / 'syntax' / internal:*
+    """
+    The property speaks of 'the same accept/reject verdict': accepted | rejected (with whatever diagnosis;
+    which of two applicable checks fires first may legitimately depend on iteration order) | internal error.
+    """
+    if v == "accepted":
+        return "accepted"
+    if v.startswith("rejected:") or v in ("syntax", "flags-error"):
+        return "rejected"
+    return v
 
 
 def c20_unit(unit, plan, root, uidx, workdir, tree):
@@ -297,7 +305,7 @@ def c20_unit(unit, plan, root, uidx, workdir, tree):
     for i in range(1, T["replicas"]):
         envs.append({"name": "R%d" % i, "hashseed": rng.randrange(1, 2 ** 31), "aslr_off": rng.random() < 0.25,
                      "history": make_history(rng, pool, target, tree) if rng.random() < 0.85 else [],
-                     "pyopt": rng.random() < 0.2})
+                     "pyopt": rng.random() < 0.35})
     comps = []
     builds = []
     try:
@@ -406,7 +414,9 @@ def tasks_c20(root, tier, tree):
     while len(srcs) < T["c20_sources"]:
         idx = 100000 + i
         i += 1
-        if i % 5 == 4:
+        if i % 5 == 3:
+            p = workload.generated_unit(root, idx, stream="program-c20-macro", macroprog=True)
+        elif i % 5 == 4:
             p = workload.generated_unit(root, idx, stream="program-c20-greedy", greedyprog=True)
         elif i % 2 == 0:
             p = workload.generated_unit(root, idx, stream="program-c20-regex", regexprog=True)
